@@ -16,6 +16,7 @@ Clauses of the property and where they are stated (all over `Rat`, any table siz
 -/
 import FairModel.Lemmas.Saddle
 import FairModel.Lemmas.EGLoop
+import FairModel.Lemmas.LinProg
 
 namespace C08
 open Saddle Finset
@@ -333,6 +334,238 @@ theorem loop_early_stop {P : Params} (O : Oracles) (h : LoopHyp P) (hlt : (run P
   omega
 
 end Loop
+
+/-! ## The linear programmes of `solve_linprog` (`Model/LinProg.lean` over `Generated/LinProgGen.lean`)
+
+`T` is the table of the classifiers found so far (`self.errors`, `self.gammas`, `bound()`), the primal variable is
+`(Q, t)`, the dual variable `(lambda, mu)`. -/
+section LP
+open LinProg EGLoop
+
+/-- **(2a)** primal feasibility, spelled out: `Q >= 0`, `t >= 0` (scipy's default bounds), the equality row says
+    `sum Q = 1`, and inequality row `j` says `sum_i (gamma_j(h_i) - bound_j) Q_i - t <= 0`. -/
+theorem lp_feasible_iff (T : Table) (Q : List Rat) (t : Rat) (hQ : Q.length = T.nH) :
+    primalFeasible T (Q ++ [t]) = true ↔
+      (∀ x ∈ Q, 0 ≤ x) ∧ 0 ≤ t ∧ Q.sum = 1 ∧
+      ∀ j < T.nC, (∑ i ∈ range T.nH, (T.gam j i - T.c j) * vec Q i) - t ≤ 0 := by
+  unfold primalFeasible rowsLe rowsEq
+  rw [Aub_length, Aeq_eq, beq_eq]
+  simp only [Bool.and_eq_true, decide_eq_true_eq, List.all_eq_true, List.mem_range, List.length_append,
+    List.length_singleton, List.length_cons, List.length_nil, hQ, List.mem_append, List.mem_singleton]
+  constructor
+  · rintro ⟨⟨⟨_, hx⟩, hub⟩, heq⟩
+    refine ⟨fun x hx' => hx x (Or.inl hx'), hx t (Or.inr rfl), ?_, ?_⟩
+    · have := heq 0 (by omega)
+      simp only [List.getD_cons_zero] at this
+      rw [Aeq_dot T Q t hQ] at this
+      exact this
+    · intro j hj
+      have := hub j hj
+      rw [Aub_dot T Q t hQ j hj, bub_get] at this
+      exact this
+  · rintro ⟨hq, ht, hs, hv⟩
+    refine ⟨⟨⟨trivial, ?_⟩, ?_⟩, ?_⟩
+    · intro x hx
+      rcases hx with hx | rfl
+      · exact hq x hx
+      · exact ht
+    · intro j hj
+      rw [Aub_dot T Q t hQ j hj, bub_get]
+      exact hv j hj
+    · intro j hj
+      have : j = 0 := by omega
+      subst this
+      simp only [List.getD_cons_zero]
+      rw [Aeq_dot T Q t hQ]
+      exact hs
+
+/-- **(2a)** ... which means exactly: `Q` is a distribution over the stored classifiers and `t` dominates `0` and
+    every constraint violation of the mixture `Q`. -/
+theorem lp_feasible_iff_distribution (T : Table) (Q : List Rat) (t : Rat) (hQ : Q.length = T.nH) :
+    primalFeasible T (Q ++ [t]) = true ↔ IsProb Q ∧ 0 ≤ t ∧ ∀ j < T.nC, viol T (vec Q) j ≤ t := by
+  rw [lp_feasible_iff T Q t hQ]
+  constructor
+  · rintro ⟨hq, ht, hs, hv⟩
+    refine ⟨⟨hq, hs⟩, ht, fun j hj => ?_⟩
+    have := hv j hj
+    rw [row_sum_eq_viol T Q hQ hs j] at this
+    linarith
+  · rintro ⟨⟨hq, hs⟩, ht, hv⟩
+    refine ⟨hq, ht, hs, fun j hj => ?_⟩
+    rw [row_sum_eq_viol T Q hQ hs j]
+    linarith [hv j hj]
+
+/-- **(2a)** the objective is `error(Q) + B t` (`B` is the last cost entry) -/
+theorem lp_objective (T : Table) (B : Rat) (Q : List Rat) (t : Rat) (hQ : Q.length = T.nH) :
+    primalObj T B (Q ++ [t]) = errQ T (vec Q) + B * t := c_dot T B Q t hQ
+
+/-- **(2a)** every feasible point's objective is at least `L(Q, lambda)` for EVERY `lambda >= 0` with `|lambda|_1 <= B` -/
+theorem lp_objective_ge_lagr (T : Table) (B : Rat) (Q : List Rat) (t : Rat) (hQ : Q.length = T.nH)
+    (hf : primalFeasible T (Q ++ [t]) = true) (lam : Nat → Rat) (hl : ∀ j < T.nC, 0 ≤ lam j)
+    (hB : ∑ j ∈ range T.nC, lam j ≤ B) : lagr T (vec Q) lam ≤ primalObj T B (Q ++ [t]) := by
+  obtain ⟨_, ht, hv⟩ := (lp_feasible_iff_distribution T Q t hQ).mp hf
+  rw [lp_objective T B Q t hQ, lagr, sumTo_eq]
+  have h1 : ∑ j ∈ range T.nC, lam j * viol T (vec Q) j ≤ ∑ j ∈ range T.nC, lam j * t := by
+    apply Finset.sum_le_sum
+    intro j hj
+    have hj' := Finset.mem_range.mp hj
+    exact mul_le_mul_of_nonneg_left (hv j hj') (hl j hj')
+  rw [← Finset.sum_mul] at h1
+  have h2 : (∑ j ∈ range T.nC, lam j) * t ≤ B * t := mul_le_mul_of_nonneg_right hB ht
+  linarith
+
+/-- the smallest feasible slack for a mixture: `max(0, max_j violation_j)` -/
+def tStar (T : Table) (Q : Nat → Rat) : Rat := if maxViol T Q > 0 then maxViol T Q else 0
+
+/-- **(2a)** for a distribution `Q` the point `(Q, max(0, max violation))` is feasible and its objective is `L_high(Q)`
+    of the Saddle model — the value of the multiplier player's best response. -/
+theorem lp_lHigh_feasible (T : Table) (B : Rat) (Q : List Rat) (hQ : Q.length = T.nH) (hp : IsProb Q) :
+    primalFeasible T (Q ++ [tStar T (vec Q)]) = true ∧
+    primalObj T B (Q ++ [tStar T (vec Q)]) = lHigh T B (vec Q) := by
+  constructor
+  · rw [lp_feasible_iff_distribution T Q _ hQ]
+    refine ⟨hp, ?_, fun j hj => ?_⟩
+    · unfold tStar; split
+      · next h => exact le_of_lt h
+      · exact le_refl _
+    · have := viol_le_maxViol T (vec Q) j hj
+      unfold tStar; split
+      · exact this
+      · next h => exact le_trans this (not_lt.mp h)
+  · rw [lp_objective T B Q _ hQ]
+    unfold lHigh EGGen.lHigh tStar
+    by_cases h : maxViol T (vec Q) > 0
+    · simp [h]
+    · simp [h]
+
+/-- **(2a)** and no feasible point with the same `Q` does better (at least one constraint, `B >= 0`): the primal
+    optimum is `min_Q L_high(Q) = min_Q max_lambda L(Q, lambda)` over distributions on the stored classifiers. -/
+theorem lp_objective_ge_lHigh (T : Table) (B : Rat) (Q : List Rat) (t : Rat) (hQ : Q.length = T.nH) (hB : 0 ≤ B)
+    (hnC : 0 < T.nC) (hf : primalFeasible T (Q ++ [t]) = true) : lHigh T B (vec Q) ≤ primalObj T B (Q ++ [t]) := by
+  obtain ⟨_, ht, hv⟩ := (lp_feasible_iff_distribution T Q t hQ).mp hf
+  obtain ⟨j, hj, hm⟩ := maxViol_attained T (vec Q) hnC
+  rw [lp_objective T B Q t hQ]
+  unfold lHigh EGGen.lHigh
+  split
+  · have := hv j hj
+    rw [← hm] at this
+    nlinarith
+  · nlinarith
+
+/-- **(2b)** dual feasibility, spelled out: `lambda >= 0` (the bounds of the first `n_constraints` variables),
+    `sum lambda <= B` (the row of the primal slack column), and the free variable `mu` is at most
+    `err_i + sum_j lambda_j (gamma_j(h_i) - bound_j)` for every stored classifier `i` — it is a lower bound `L_low`. -/
+theorem dual_feasible_iff (T : Table) (B : Rat) (lam : List Rat) (mu : Rat) (hl : lam.length = T.nC) :
+    dualFeasible T B (lam ++ [mu]) = true ↔
+      (∀ j < T.nC, 0 ≤ vec lam j) ∧ ∑ j ∈ range T.nC, vec lam j ≤ B ∧ ∀ i < T.nH, mu ≤ lPure T (vec lam) i := by
+  have hrow_lo : ∀ i < T.nH, LinProg.dot ((dualA T).getD i []) (lam ++ [mu])
+      = -(∑ j ∈ range T.nC, vec lam j * (T.gam j i - T.c j)) + mu := by
+    intro i hi
+    rw [dualA_row_lo T i hi, dot_append_single _ _ _ _ (by simp [hl]), dot_range_map, ← Finset.sum_neg_distrib]
+    congr 1
+    · apply Finset.sum_congr rfl
+      intro j _; unfold vec; ring
+    · ring
+  have hrow_hi : LinProg.dot ((dualA T).getD T.nH []) (lam ++ [mu]) = ∑ j ∈ range T.nC, vec lam j := by
+    rw [dualA_row_hi T, dot_append_single _ _ _ _ (by simp [hl]), dot_range_map]
+    simp [vec]
+  unfold dualFeasible rowsLe
+  rw [dualA_length]
+  simp only [Bool.and_eq_true, decide_eq_true_eq, List.all_eq_true, List.mem_range, List.length_append,
+    List.length_singleton, hl, Bool.or_eq_true, LinProgGen.dualFree]
+  constructor
+  · rintro ⟨⟨_, hnn⟩, hrows⟩
+    refine ⟨fun j hj => ?_, ?_, fun i hi => ?_⟩
+    · rcases hnn j (by omega) with h | h
+      · omega
+      · rw [getD_append_single_lt lam mu j (by omega)] at h; exact h
+    · have := hrows T.nH (by omega)
+      rw [hrow_hi, dualB_get T B T.nH (le_refl _)] at this
+      simpa using this
+    · have := hrows i (by omega)
+      rw [hrow_lo i hi, dualB_get T B i (by omega), if_pos hi] at this
+      rw [lPure_eq T (vec lam) i hi]
+      linarith
+  · rintro ⟨hnn, hsum, hmu⟩
+    refine ⟨⟨trivial, fun j hj => ?_⟩, fun i hi => ?_⟩
+    · by_cases h : j = T.nC
+      · left; exact h
+      · right
+        rw [getD_append_single_lt lam mu j (by omega)]
+        exact hnn j (by omega)
+    · by_cases h : i < T.nH
+      · rw [hrow_lo i h, dualB_get T B i (by omega), if_pos h]
+        have := hmu i h
+        rw [lPure_eq T (vec lam) i h] at this
+        linarith
+      · have : i = T.nH := by omega
+        subst this
+        rw [hrow_hi, dualB_get T B T.nH (le_refl _)]
+        simpa using hsum
+
+/-- **(2b)** the code MINIMISES `dual_c . y = -mu` (`dual_c = (b_ub, -b_eq) = (0, ..., 0, -1)`), i.e. maximises `mu` -/
+theorem dual_objective (T : Table) (lam : List Rat) (mu : Rat) (hl : lam.length = T.nC) :
+    dualObj T (lam ++ [mu]) = -mu := by
+  unfold dualObj
+  rw [dualC_eq, dot_append_single _ _ _ _ (by simp [hl]), dot_replicate_zero]
+  ring
+
+/-- **(2b) weak duality for the generated pair**: any primal-feasible `(Q, t)` and dual-feasible `(lambda, mu)` satisfy
+    `-(dual_c . y) = mu <= L(Q, lambda) <= c . x = error(Q) + B t`.  So the generated dual really is the LP dual of
+    the generated primal, with the sign convention of the source. -/
+theorem lp_weak_duality (T : Table) (B : Rat) (Q : List Rat) (t : Rat) (lam : List Rat) (mu : Rat)
+    (hQ : Q.length = T.nH) (hl : lam.length = T.nC)
+    (hp : primalFeasible T (Q ++ [t]) = true) (hd : dualFeasible T B (lam ++ [mu]) = true) :
+    -(dualObj T (lam ++ [mu])) ≤ lagr T (vec Q) (vec lam) ∧
+    lagr T (vec Q) (vec lam) ≤ primalObj T B (Q ++ [t]) := by
+  obtain ⟨hnn, hsum, hmu⟩ := (dual_feasible_iff T B lam mu hl).mp hd
+  obtain ⟨hprob, _, _⟩ := (lp_feasible_iff_distribution T Q t hQ).mp hp
+  refine ⟨?_, lp_objective_ge_lagr T B Q t hQ hp (vec lam) hnn hsum⟩
+  rw [dual_objective T lam mu hl, neg_neg]
+  have hs : ∑ i ∈ range T.nH, vec Q i = 1 := by rw [← hQ, sum_vec]; exact hprob.2
+  rw [lagr_mix T (vec Q) (vec lam) hs]
+  have hq := (forall_mem_iff_vec Q).mp hprob.1
+  calc mu = ∑ i ∈ range T.nH, vec Q i * mu := by rw [← Finset.sum_mul, hs, one_mul]
+    _ ≤ ∑ i ∈ range T.nH, vec Q i * lPure T (vec lam) i := by
+      apply Finset.sum_le_sum
+      intro i hi
+      have hi' := Finset.mem_range.mp hi
+      exact mul_le_mul_of_nonneg_left (hmu i hi') (hq i (by omega))
+
+/-- **(2c)** for a primal-feasible `Q` and dual-feasible `lambda` the duality gap of the Saddle model is `>= 0`, and
+    if it is `0` then BOTH are optimal: no feasible primal point has a smaller objective than `(Q, t*)` and no
+    feasible dual point a larger `mu` than `L(Q, lambda)`.  (The converse — both optimal implies gap `0` — is LP
+    strong duality and is NOT proved here; the correspondence check observes `gap_LP` of every LP step.) -/
+theorem lp_gap_zero_optimal (T : Table) (B : Rat) (Q lam : List Rat) (hQ : Q.length = T.nH)
+    (hp : IsProb Q) (hnn : ∀ j < T.nC, 0 ≤ vec lam j) (hsum : ∑ j ∈ range T.nC, vec lam j ≤ B)
+    (hgap : trueGap T B (vec Q) (vec lam) = 0) :
+    (∀ (Q' : List Rat) (t' : Rat), Q'.length = T.nH → primalFeasible T (Q' ++ [t']) = true →
+        primalObj T B (Q ++ [tStar T (vec Q)]) ≤ primalObj T B (Q' ++ [t'])) ∧
+    (∀ (lam' : List Rat) (mu' : Rat), lam'.length = T.nC → dualFeasible T B (lam' ++ [mu']) = true →
+        mu' ≤ lagr T (vec Q) (vec lam)) := by
+  obtain ⟨h1, h2⟩ := gap_parts (le_of_eq hgap)
+  have hhigh := lagr_le_lHigh T B (vec Q) (vec lam) hnn hsum
+  have hlow := lLow_le_L T (vec Q) (vec lam) (List.range T.nH)
+  have hHeq : lHigh T B (vec Q) = lagr T (vec Q) (vec lam) := by linarith
+  have hLeq : lLow T (vec Q) (vec lam) (List.range T.nH) = lagr T (vec Q) (vec lam) := by linarith
+  constructor
+  · intro Q' t' hQ' hf'
+    rw [(lp_lHigh_feasible T B Q hQ hp).2, hHeq, ← hLeq]
+    obtain ⟨hprob', _, _⟩ := (lp_feasible_iff_distribution T Q' t' hQ').mp hf'
+    have hs' : ∑ i ∈ range T.nH, vec Q' i = 1 := by rw [← hQ', sum_vec]; exact hprob'.2
+    have hq' : ∀ i < T.nH, 0 ≤ vec Q' i := by
+      intro i hi; exact (forall_mem_iff_vec Q').mp hprob'.1 i (by omega)
+    exact le_trans (lLow_le_mix T (vec Q) (vec lam) (vec Q') hs' hq')
+      (lp_objective_ge_lagr T B Q' t' hQ' hf' (vec lam) hnn hsum)
+  · intro lam' mu' hl' hd'
+    have hfeas := (lp_lHigh_feasible T B Q hQ hp).1
+    have hw := lp_weak_duality T B Q (tStar T (vec Q)) lam' mu' hQ hl' hfeas hd'
+    rw [dual_objective T lam' mu' hl', neg_neg] at hw
+    have := le_trans hw.1 hw.2
+    rw [(lp_lHigh_feasible T B Q hQ hp).2, hHeq] at this
+    exact this
+
+end LP
 
 /-! Non-vacuity for the loop: a 2-constraint run with a positive "exponential", two oracle answers. -/
 def exP : EGLoop.Params := ⟨4, 2, 1/100, 3, false, true, [1/10, 1/10], fun x => 1 + x * x⟩
